@@ -178,7 +178,7 @@ Definition tail_evs (t : transfer) : list ev :=
 
 (** Closed form of run_on_done. *)
 Definition done_transfer (wh : bool) (o : outcome) (t : transfer) : transfer :=
-  mkT (t_id t) (t_kind t) (t_nsubs t) (t_raises t) (t_registered t) (t_exc t) (t_crt t)
+  mkT (t_id t) (t_kind t) (t_nsubs t) (t_raises t) (t_qfail t) (t_registered t) (t_exc t) (t_crt t)
       true (t_subs_done t + t_nsubs t)
       (if t_raises t then t_releases t else S (t_releases t))
       (if t_raises t then t_after t else true)
@@ -200,7 +200,7 @@ Qed.
 
 Lemma run_subs_after : forall o t, (t_raises t = true -> t_nsubs t <> 0%nat) ->
   run_cbs o (sub_calls t ++ after_calls) t =
-  (mkT (t_id t) (t_kind t) (t_nsubs t) (t_raises t) (t_registered t) (t_exc t) (t_crt t)
+  (mkT (t_id t) (t_kind t) (t_nsubs t) (t_raises t) (t_qfail t) (t_registered t) (t_exc t) (t_crt t)
        (t_on_done_ran t) (t_subs_done t + t_nsubs t)
        (if t_raises t then t_releases t else S (t_releases t))
        (if t_raises t then t_after t else true) (t_temp t),
@@ -245,11 +245,9 @@ Definition expected_temp (t : transfer) : tempstate :=
   match t_kind t with
   | DownloadPath =>
       if t_exc t then TAbsent
-      else match t_crt t with
-           | None => TTemp
-           | Some Ok => TRenamed
-           | Some _ => TRemoved
-           end
+      else if t_on_done_ran t
+           then match t_crt t with Some Ok => TRenamed | _ => TRemoved end
+           else TTemp
   | _ => TAbsent
   end.
 
@@ -266,24 +264,31 @@ Definition handler_evs (t : transfer) : list ev :=
 
 (** What the log must contain about one transfer, in this order. *)
 Definition canon (t : transfer) : list ev :=
-  EvAcquire :: queued_evs (t_nsubs t) ++
+  EvAcquire :: queued_part t ++
   (if t_on_done_ran t then handler_evs t ++ sub_evs t ++ tail_evs t else []).
 
 Record wf (t : transfer) : Prop := {
   wf_rel : t_releases t = if t_after t then 1%nat else 0%nat;
   wf_after : t_after t = t_on_done_ran t && negb (t_raises t);
   wf_subs : t_subs_done t = if t_on_done_ran t then t_nsubs t else 0%nat;
-  wf_ran : t_on_done_ran t = t_exc t || is_some (t_crt t);
+  wf_ran1 : t_exc t = true -> t_on_done_ran t = true;
+  wf_ran2 : t_on_done_ran t = true -> t_exc t = false -> is_some (t_crt t) = true;
   wf_reg : t_registered t = negb (t_exc t && t_raises t);
   wf_raises : t_raises t = true -> t_nsubs t <> 0%nat;
   wf_temp : t_temp t = expected_temp t;
   wf_norm : t_crt t = Some OkRenameFail -> t_kind t = DownloadPath;
-  wf_exc : t_exc t = true -> t_crt t = None }.
+  wf_exc : t_exc t = true -> t_crt t = None;
+  wf_qfail : t_qfail t = true -> t_exc t = true /\ t_nsubs t <> 0%nat }.
 
 Lemma norm_raises_nsubs : forall n r, norm_raises n r = true -> n <> 0%nat.
 Proof.
   intros n r H. unfold norm_raises in H. apply andb_prop in H. destruct H as [_ H].
   destruct n; [discriminate|lia].
+Qed.
+
+Lemma norm_qfail_nsubs : forall n f, norm_qfail n f = true -> n <> 0%nat.
+Proof.
+  intros n f H. destruct f; cbn in H; try discriminate. destruct n; [discriminate|lia].
 Qed.
 
 Lemma sem_delta_app : forall a b, sem_delta (a ++ b) = sem_delta a + sem_delta b.
@@ -299,6 +304,11 @@ Qed.
 Lemma sem_delta_queued : forall n, sem_delta (queued_evs n) = 0.
 Proof. intros. apply sem_delta_map0. reflexivity. Qed.
 
+Lemma sem_delta_queued_part : forall t, sem_delta (queued_part t) = 0.
+Proof.
+  intros t. unfold queued_part. destruct (t_qfail t); [reflexivity|apply sem_delta_queued].
+Qed.
+
 Lemma sem_delta_done_evs : forall wh o t,
   sem_delta (done_evs wh o t) = if t_raises t then 0 else 1.
 Proof.
@@ -309,61 +319,89 @@ Proof.
   rewrite H. destruct (t_raises t); reflexivity.
 Qed.
 
-(** A fresh submission whose construction failed. *)
-Lemma wf_failed : forall id k n r,
-  let t0 := set_exc (new_transfer id k n r) true in
+(** A fresh submission whose construction failed (at any of the three points). *)
+Lemma wf_failed : forall id k n r q, (q = true -> n <> 0%nat) ->
+  let t0 := set_exc (new_transfer id k n r q) true in
   wf (set_registered (done_transfer false Err t0) (negb (t_raises t0))) /\
   canon (done_transfer false Err t0) =
-    (EvAcquire :: queued_evs n) ++ done_evs false Err t0.
+    (EvAcquire :: queued_part t0) ++ done_evs false Err t0.
 Proof.
-  intros id k n r t0. split.
+  intros id k n r q Hq t0. split.
   - pose proof (norm_raises_nsubs n r) as Hn.
     subst t0. unfold new_transfer, set_exc, set_registered, done_transfer in *. cbn in *.
     destruct (norm_raises n r) eqn:E; constructor; cbn; try rewrite E; cbn;
-      try reflexivity; try congruence; try (destruct k; reflexivity); try lia.
-  - subst t0. unfold canon, done_evs, handler_evs. cbn. reflexivity.
+      try reflexivity; try congruence; try (destruct k; reflexivity); try lia;
+      try (intros; reflexivity); try (intros; discriminate);
+      try (intros Eq; split; [reflexivity|now apply Hq]).
+  - subst t0. unfold canon, done_evs, handler_evs, queued_part. cbn. reflexivity.
 Qed.
 
 Lemma wf_fresh : forall id k n r,
-  let t1 := set_temp (set_registered (new_transfer id k n r) true)
+  let t1 := set_temp (set_registered (new_transfer id k n r false) true)
                      (match k with DownloadPath => TTemp | _ => TAbsent end) in
   wf t1 /\ canon t1 = EvAcquire :: queued_evs n.
 Proof.
   intros id k n r t1. split.
   - subst t1. constructor; cbn; try reflexivity; try discriminate.
     + apply norm_raises_nsubs.
-  - subst t1. unfold canon. cbn. now rewrite app_nil_r.
+  - subst t1. unfold canon, queued_part. cbn. now rewrite app_nil_r.
 Qed.
 
-(** A pending request that the CRT finishes. *)
-Lemma wf_completed : forall t o, wf t -> has_pending_request t = true ->
-  let o' := norm_outcome (t_kind t) o in
-  let t0 := set_crt t (Some o') in
-  wf (done_transfer true o' t0) /\
-  canon (done_transfer true o' t0) = canon t ++ done_evs true o' t0 /\
-  t_releases t = 0%nat.
+Lemma pending_fields : forall t, wf t -> has_pending_request t = true ->
+  t_exc t = false /\ t_crt t = None /\ t_on_done_ran t = false.
 Proof.
-  intros t o [H1 H2 H3 H4 H5 H6 H7 H8 H9] Hp o' t0.
-  unfold has_pending_request in Hp. apply andb_prop in Hp. destruct Hp as [He Hc].
+  intros t Hw Hp. unfold has_pending_request in Hp. apply andb_prop in Hp. destruct Hp as [He Hc].
   apply negb_true_iff in He. apply negb_true_iff in Hc.
   destruct (t_crt t) as [oc|] eqn:Ec; [discriminate|].
-  rewrite He in *. cbn in H4. rewrite H4 in *. cbn in H2. rewrite H2 in *.
-  split; [|split; [|exact H1]].
-  - subst t0 o'. unfold done_transfer, set_crt, uses_handler. cbn.
-    constructor; cbn; rewrite ?He, ?H1, ?H2, ?H3, ?H4; cbn.
-    + destruct (t_raises t); reflexivity.
-    + destruct (t_raises t); reflexivity.
-    + reflexivity.
-    + reflexivity.
-    + exact H5.
-    + exact H6.
-    + unfold expected_temp. cbn. rewrite ?He.
-      unfold expected_temp in H7. rewrite ?He, ?Ec in H7.
-      destruct (t_kind t); cbn; try exact H7. destruct o; reflexivity.
+  split; [exact He|]. split; [reflexivity|].
+  destruct (t_on_done_ran t) eqn:Er; [|reflexivity].
+  pose proof (wf_ran2 t Hw Er He) as X. rewrite Ec in X. discriminate.
+Qed.
+
+(** The CRT resolves the finished_future of a pending request. *)
+Lemma wf_resolved : forall t o, wf t -> has_pending_request t = true ->
+  let t1 := set_crt t (Some (norm_outcome (t_kind t) o)) in
+  wf t1 /\ canon t1 = canon t /\ t_releases t1 = t_releases t.
+Proof.
+  intros t o Hw Hp t1. destruct (pending_fields t Hw Hp) as [He [Ec Er]].
+  destruct Hw as [H1 H2 H3 H4 H4' H5 H6 H7 H8 H9 H10].
+  split; [|split; [|reflexivity]].
+  - subst t1. unfold set_crt. constructor; cbn; try assumption.
+    + intros _ _. reflexivity.
+    + rewrite H7. unfold expected_temp. cbn. rewrite He, Er. reflexivity.
     + intros E. destruct (t_kind t), o; cbn in E; try discriminate; reflexivity.
+    + rewrite He. discriminate.
+  - subst t1. unfold canon, set_crt, queued_part. cbn. rewrite Er. reflexivity.
+Qed.
+
+(** on_done of a resolved request is delivered. *)
+Lemma wf_delivered : forall t o, wf t -> t_crt t = Some o -> t_on_done_ran t = false ->
+  wf (done_transfer true o t) /\
+  canon (done_transfer true o t) = canon t ++ done_evs true o t /\
+  t_releases t = 0%nat.
+Proof.
+  intros t o [H1 H2 H3 H4 H4' H5 H6 H7 H8 H9 H10] Ec Er.
+  assert (He : t_exc t = false).
+  { destruct (t_exc t) eqn:E; [|reflexivity]. rewrite (H4 eq_refl) in Er. discriminate. }
+  rewrite Er in H2. cbn in H2. rewrite H2 in H1. rewrite Er in H3.
+  split; [|split; [|exact H1]].
+  - unfold done_transfer, uses_handler. cbn.
+    constructor; cbn; rewrite ?He, ?H1, ?H2, ?H3, ?Ec; cbn.
+    + destruct (t_raises t); reflexivity.
+    + destruct (t_raises t); reflexivity.
+    + reflexivity.
     + discriminate.
-  - subst t0 o'. unfold canon, done_evs, handler_evs, uses_handler, set_crt, done_transfer, sub_evs, tail_evs.
-    cbn. rewrite He, H4. rewrite app_nil_r.
+    + reflexivity.
+    + rewrite H5, He. reflexivity.
+    + exact H6.
+    + unfold expected_temp. cbn. rewrite ?He, ?Ec.
+      unfold expected_temp in H7. rewrite ?He, ?Er in H7.
+      destruct (t_kind t); cbn; try exact H7. destruct o; reflexivity.
+    + intros E. apply H8. rewrite Ec. exact E.
+    + discriminate.
+    + intros E. destruct (H10 E) as [X _]. congruence.
+  - unfold canon, done_evs, handler_evs, uses_handler, done_transfer, sub_evs, tail_evs, queued_part.
+    cbn. rewrite He, Er, Ec. rewrite app_nil_r.
     destruct (t_kind t); reflexivity.
 Qed.
 
@@ -381,6 +419,12 @@ Proof.
   intros N HN. constructor; cbn; try lia.
   - constructor.
   - intros [|i] t H; discriminate.
+Qed.
+
+Lemma inv_wf_nth : forall N s i t, Inv N s -> nth_error (transfers s) i = Some t -> wf t.
+Proof.
+  intros N s i t HI Hn. pose proof (inv_wf N s HI) as HF. rewrite Forall_forall in HF.
+  apply HF. eapply nth_error_In. exact Hn.
 Qed.
 
 (** Appending transfer [t1] whose events [evs] are its canonical ones. *)
@@ -409,49 +453,72 @@ Lemma inv_submit : forall N s k n r f, Inv N s -> Inv N (fst (submit k n r f s))
 Proof.
   intros N s k n r f HI. unfold submit.
   destruct (permits s <=? 0) eqn:Ep; [exact HI|]. apply Z.leb_gt in Ep.
-  destruct f.
+  destruct (is_fail f) eqn:Ef.
   - rewrite run_on_done_eq by (cbn; apply norm_raises_nsubs).
-    destruct (wf_failed (next_id s) k n r) as [Hwf Hc].
+    destruct (wf_failed (next_id s) k n r (norm_qfail n f) (norm_qfail_nsubs n f)) as [Hwf Hc].
     cbn [t_raises set_exc new_transfer] in *.
-    assert (Hd : sem_delta ((EvAcquire :: queued_evs n) ++
-                  done_evs false Err (set_exc (new_transfer (next_id s) k n r) true)) =
+    set (t0 := set_exc (new_transfer (next_id s) k n r (norm_qfail n f)) true) in *.
+    assert (Hd : sem_delta ((EvAcquire :: queued_part t0) ++ done_evs false Err t0) =
                  (if norm_raises n r then 0 else 1) - 1).
     { rewrite sem_delta_app, sem_delta_done_evs. cbn [sem_delta sem_delta1].
-      rewrite sem_delta_queued. cbn. destruct (norm_raises n r); lia. }
+      rewrite sem_delta_queued_part. subst t0. cbn. destruct (norm_raises n r); lia. }
+    change (queued_part (new_transfer (next_id s) k n r (norm_qfail n f))) with (queued_part t0).
     destruct (norm_raises n r) eqn:Er; cbn [fst negb] in *.
     + apply inv_append; try assumption.
       * rewrite Hd. lia.
-      * rewrite Hd. cbn. rewrite Er. reflexivity.
+      * rewrite Hd. subst t0. cbn. rewrite Er. reflexivity.
     + apply inv_append; try assumption.
       * rewrite Hd. lia.
-      * rewrite Hd. cbn. rewrite Er. reflexivity.
-  - cbn [fst]. destruct (wf_fresh (next_id s) k n r) as [Hwf Hc].
+      * rewrite Hd. subst t0. cbn. rewrite Er. reflexivity.
+  - assert (Eq : norm_qfail n f = false) by (destruct f; try discriminate; reflexivity).
+    rewrite Eq. cbn [fst]. destruct (wf_fresh (next_id s) k n r) as [Hwf Hc].
+    change (queued_part (new_transfer (next_id s) k n r false)) with (queued_evs n).
     assert (Hd : sem_delta (EvAcquire :: queued_evs n) = -1).
     { cbn [sem_delta sem_delta1]. rewrite sem_delta_queued. reflexivity. }
     apply inv_append; try assumption.
     rewrite Hd. lia.
 Qed.
 
-Lemma inv_complete : forall N s i o, Inv N s -> Inv N (fst (complete i o s)).
+Lemma inv_resolve : forall N s i o, Inv N s -> Inv N (fst (resolve i o s)).
 Proof.
-  intros N s i o HI. unfold complete.
+  intros N s i o HI. unfold resolve.
   destruct (nth_error (transfers s) i) as [t|] eqn:En; [|exact HI].
   destruct (has_pending_request t) eqn:Hp; [|exact HI].
+  pose proof (inv_wf_nth N s i t HI En) as Hwt.
+  destruct (wf_resolved t o Hwt Hp) as [Hwf [Hc Hr]].
+  destruct HI as [I1 I2 I3 I4 I5]. cbn [fst].
+  assert (Hlt : (i < length (transfers s))%nat) by (apply nth_error_Some; congruence).
+  pose proof (sum_rel_set_nth i t (set_crt t (Some (norm_outcome (t_kind t) o))) (transfers s) En) as Hs.
+  rewrite Hr in Hs.
+  constructor; cbn [permits transfers log].
+  - rewrite set_nth_length. lia.
+  - exact I2.
+  - apply Forall_set_nth; assumption.
+  - intros j tj Hn. destruct (Nat.eq_dec i j) as [<-|Hne].
+    + rewrite nth_error_set_nth_eq in Hn by exact Hlt. injection Hn as <-.
+      rewrite (I4 i t En). symmetry. exact Hc.
+    + rewrite nth_error_set_nth_neq in Hn by exact Hne. now apply I4.
+  - intros j e Hin. rewrite set_nth_length. now apply I5 in Hin.
+Qed.
+
+Lemma inv_deliver : forall N s i, Inv N s -> Inv N (fst (deliver i s)).
+Proof.
+  intros N s i HI. unfold deliver.
+  destruct (nth_error (transfers s) i) as [t|] eqn:En; [|exact HI].
+  destruct (t_crt t) as [o|] eqn:Ec; [|exact HI].
+  destruct (t_on_done_ran t) eqn:Er; [exact HI|].
+  pose proof (inv_wf_nth N s i t HI En) as Hwt.
   destruct HI as [I1 I2 I3 I4 I5].
-  assert (Hwt : wf t).
-  { rewrite Forall_forall in I3. apply I3. eapply nth_error_In. exact En. }
-  rewrite run_on_done_eq by (cbn; apply (wf_raises t Hwt)).
-  destruct (wf_completed t o Hwt Hp) as [Hwf [Hc Hr0]].
-  set (o' := norm_outcome (t_kind t) o) in *.
-  set (t0 := set_crt t (Some o')) in *.
+  rewrite run_on_done_eq by (apply (wf_raises t Hwt)).
+  destruct (wf_delivered t o Hwt Ec Er) as [Hwf [Hc Hr0]].
   cbn [fst].
   assert (Hlt : (i < length (transfers s))%nat) by (apply nth_error_Some; congruence).
-  pose proof (sum_rel_set_nth i t (done_transfer true o' t0) (transfers s) En) as Hs.
-  assert (Hrel : t_releases (done_transfer true o' t0) =
+  pose proof (sum_rel_set_nth i t (done_transfer true o t) (transfers s) En) as Hs.
+  assert (Hrel : t_releases (done_transfer true o t) =
                  if t_raises t then 0%nat else 1%nat).
   { unfold done_transfer. cbn. rewrite Hr0. reflexivity. }
-  assert (Hd : sem_delta (done_evs true o' t0) = if t_raises t then 0 else 1).
-  { rewrite sem_delta_done_evs. reflexivity. }
+  assert (Hd : sem_delta (done_evs true o t) = if t_raises t then 0 else 1).
+  { apply sem_delta_done_evs. }
   constructor; cbn [permits transfers log].
   - rewrite set_nth_length. rewrite Hd. rewrite Hrel in Hs.
     destruct (t_raises t); lia.
@@ -464,6 +531,14 @@ Proof.
       rewrite (I4 j tj Hn), proj_tag_other by congruence. apply app_nil_r.
   - intros j e Hin. rewrite set_nth_length. apply in_app_or in Hin.
     destruct Hin as [Hin|Hin]; [now apply I5 in Hin|]. apply In_tag in Hin. lia.
+Qed.
+
+Lemma inv_complete : forall N s i o, Inv N s -> Inv N (fst (complete i o s)).
+Proof.
+  intros N s i o HI. unfold complete.
+  pose proof (inv_resolve N s i o HI) as H1.
+  destruct (resolve i o s) as [s1 r]. cbn [fst] in H1.
+  destruct r; try exact H1. now apply inv_deliver.
 Qed.
 
 Lemma inv_cancel_one : forall N s i, Inv N s -> Inv N (cancel_one s i).
@@ -496,9 +571,11 @@ Qed.
 
 Lemma inv_step : forall N s o, Inv N s -> Inv N (fst (step s o)).
 Proof.
-  intros N s [k n r f|i oc|c] HI; cbn [step].
+  intros N s [k n r f|i oc|i oc|i|c] HI; cbn [step].
   - now apply inv_submit.
   - now apply inv_complete.
+  - now apply inv_resolve.
+  - now apply inv_deliver.
   - now apply inv_shutdown.
 Qed.
 
@@ -547,6 +624,13 @@ Proof.
   destruct (ev_eq_dec (f k) e) as [E|_]; [now apply H in E|exact IH].
 Qed.
 
+Lemma count_queued_part : forall e t, (forall k, EvQueued k <> e) -> count e (queued_part t) = 0%nat.
+Proof.
+  intros e t H. unfold queued_part. destruct (t_qfail t).
+  - apply (count_map0 e EvQueued [0%nat] H).
+  - apply count_map0. exact H.
+Qed.
+
 Lemma count_canon : forall e t,
   (forall k, EvQueued k <> e) -> (forall k, EvSubDone k <> e) ->
   count e (canon t) =
@@ -554,8 +638,8 @@ Lemma count_canon : forall e t,
    if t_on_done_ran t then count e (handler_evs t) + count e (tail_evs t) else 0)%nat.
 Proof.
   intros e t Hq Hs. unfold canon.
-  change (EvAcquire :: queued_evs (t_nsubs t) ++ ?x) with ([EvAcquire] ++ queued_evs (t_nsubs t) ++ x).
-  rewrite !count_app. unfold queued_evs. rewrite (count_map0 e EvQueued) by exact Hq.
+  change (EvAcquire :: queued_part t ++ ?x) with ([EvAcquire] ++ queued_part t ++ x).
+  rewrite !count_app. rewrite (count_queued_part e t Hq).
   destruct (t_on_done_ran t).
   - rewrite !count_app. unfold sub_evs. rewrite (count_map0 e EvSubDone) by exact Hs. lia.
   - cbn. lia.
@@ -589,22 +673,22 @@ Lemma inv_one_release : forall N s i t, Inv N s -> nth_error (transfers s) i = S
   (t_on_done_ran t = false -> t_releases t = 0%nat) /\
   (t_on_done_ran t = true -> t_raises t = false -> t_releases t = 1%nat) /\
   (t_on_done_ran t = true -> t_raises t = true -> t_releases t = 0%nat) /\
-  (t_on_done_ran t = true <-> (t_exc t = true \/ exists o, t_crt t = Some o)).
+  (t_exc t = true -> t_on_done_ran t = true) /\
+  (t_on_done_ran t = true -> t_exc t = true \/ exists o, t_crt t = Some o).
 Proof.
   intros N s i t HI Hn. pose proof (inv_log N s HI i t Hn) as Hl.
-  assert (Hw : wf t).
-  { pose proof (inv_wf N s HI) as HF. rewrite Forall_forall in HF. apply HF.
-    eapply nth_error_In. exact Hn. }
+  pose proof (inv_wf_nth N s i t HI Hn) as Hw.
   destruct (wf_release_count t Hw) as [C1 [C2 _]]. rewrite Hl.
   split; [exact C1|]. split; [exact C2|]. split; [now apply wf_rel_le1|].
-  pose proof (wf_rel t Hw) as R. pose proof (wf_after t Hw) as A. pose proof (wf_ran t Hw) as Q.
+  pose proof (wf_rel t Hw) as R. pose proof (wf_after t Hw) as A.
   repeat split.
   - intros E. rewrite E in A. cbn in A. now rewrite A in R.
   - intros E1 E2. rewrite E1, E2 in A. cbn in A. now rewrite A in R.
   - intros E1 E2. rewrite E1, E2 in A. cbn in A. now rewrite A in R.
-  - intros E. rewrite E in Q. symmetry in Q. apply orb_prop in Q.
-    destruct Q as [Q|Q]; [now left|]. right. destruct (t_crt t) as [o|]; [now exists o|discriminate].
-  - intros [E|[o E]]; rewrite Q, E; [reflexivity|]. cbn. apply orb_true_r.
+  - apply (wf_ran1 t Hw).
+  - intros E. destruct (t_exc t) eqn:Ee; [now left|]. right.
+    pose proof (wf_ran2 t Hw E Ee) as Q.
+    destruct (t_crt t) as [o|]; [now exists o|discriminate].
 Qed.
 
 (** * Order of the done callbacks *)
@@ -644,8 +728,10 @@ Lemma canon_order : forall t, wf t ->
      precedes (handler_final t) EvAfter (canon t)).
 Proof.
   intros t Hw. unfold canon.
-  assert (Hq : forall b, (forall k, EvQueued k <> b) -> ~ In b (queued_evs (t_nsubs t))).
-  { intros b Hb. apply notin_map. exact Hb. }
+  assert (Hq : forall b, (forall k, EvQueued k <> b) -> ~ In b (queued_part t)).
+  { intros b Hb. unfold queued_part. destruct (t_qfail t).
+    - apply (notin_map EvQueued b [0%nat] Hb).
+    - apply notin_map. exact Hb. }
   assert (Hs : forall b, (forall k, EvSubDone k <> b) -> ~ In b (sub_evs t)).
   { intros b Hb. apply notin_map. exact Hb. }
   assert (Hh : forall b, b = EvRelease \/ b = EvAfter \/ (exists k, b = EvSubDone k) ->
@@ -654,7 +740,7 @@ Proof.
     destruct (t_kind t); try easy. destruct (t_crt t) as [[]|]; cbn in Hin;
       destruct Hb as [->|[->|[k ->]]]; intuition discriminate. }
   assert (Hpre : forall a b D, b <> EvAcquire -> (forall k, EvQueued k <> b) ->
-            precedes a b D -> precedes a b (EvAcquire :: queued_evs (t_nsubs t) ++ D)).
+            precedes a b D -> precedes a b (EvAcquire :: queued_part t ++ D)).
   { intros a b D H1 H2 HD. apply precedes_cons_other; [congruence|].
     apply precedes_app; [apply precedes_notin, Hq, H2|now left]. }
   destruct (t_on_done_ran t) eqn:Er.
@@ -673,7 +759,7 @@ Proof.
     apply precedes_app; [apply precedes_notin, Hs; discriminate|left]. apply precedes_tail.
   - intros Hk He.
     assert (Hin : In (handler_final t) (handler_evs t)).
-    { pose proof (wf_ran t Hw) as Q. rewrite Er, He in Q. cbn in Q.
+    { pose proof (wf_ran2 t Hw Er He) as Q.
       unfold handler_evs, handler_final. rewrite He, Hk.
       destruct (t_crt t) as [[]|]; cbn; try discriminate; auto. }
     repeat split; intros; (apply Hpre; try discriminate);
@@ -691,9 +777,7 @@ Lemma inv_order : forall N s i t, Inv N s -> nth_error (transfers s) i = Some t 
      precedes (i, handler_final t) (i, EvAfter) (log s)).
 Proof.
   intros N s i t HI Hn. pose proof (inv_log N s HI i t Hn) as Hl.
-  assert (Hw : wf t).
-  { pose proof (inv_wf N s HI) as HF. rewrite Forall_forall in HF. apply HF.
-    eapply nth_error_In. exact Hn. }
+  pose proof (inv_wf_nth N s i t HI Hn) as Hw.
   destruct (canon_order t Hw) as [H1 [H2 H3]]. rewrite <- Hl in H1, H2, H3.
   split; [|split].
   - intros k Hk. destruct (H1 k Hk). split; now apply precedes_proj.
@@ -707,24 +791,27 @@ Qed.
 Lemma inv_publish_or_remove : forall N s i t, Inv N s -> nth_error (transfers s) i = Some t ->
   let p := proj i (log s) in
   (t_kind t = DownloadPath -> t_exc t = false ->
-     match t_crt t with
-     | None => t_temp t = TTemp /\ count EvRename p = 0%nat /\ count EvRemove p = 0%nat
-     | Some Ok => t_temp t = TRenamed /\ count EvRename p = 1%nat /\ count EvRemove p = 0%nat
-     | Some _ => t_temp t = TRemoved /\ count EvRename p = 0%nat /\ count EvRemove p = 1%nat
-     end) /\
+     if t_on_done_ran t then
+       match t_crt t with
+       | Some Ok => t_temp t = TRenamed /\ count EvRename p = 1%nat /\ count EvRemove p = 0%nat
+       | Some _ => t_temp t = TRemoved /\ count EvRename p = 0%nat /\ count EvRemove p = 1%nat
+       | None => False
+       end
+     else t_temp t = TTemp /\ count EvRename p = 0%nat /\ count EvRemove p = 0%nat) /\
   ((t_kind t <> DownloadPath \/ t_exc t = true) ->
      t_temp t = TAbsent /\ count EvRename p = 0%nat /\ count EvRemove p = 0%nat).
 Proof.
   intros N s i t HI Hn p. subst p. rewrite (inv_log N s HI i t Hn).
-  assert (Hw : wf t).
-  { pose proof (inv_wf N s HI) as HF. rewrite Forall_forall in HF. apply HF.
-    eapply nth_error_In. exact Hn. }
+  pose proof (inv_wf_nth N s i t HI Hn) as Hw.
   rewrite !count_canon by (intros; discriminate).
-  pose proof (wf_temp t Hw) as T. pose proof (wf_ran t Hw) as Q. pose proof (wf_exc t Hw) as X.
+  pose proof (wf_temp t Hw) as T. pose proof (wf_ran2 t Hw) as Q. pose proof (wf_exc t Hw) as X.
   unfold expected_temp in T. unfold handler_evs, tail_evs.
   split.
-  - intros Hk He. rewrite Hk, He in *. cbn in Q. rewrite Q.
-    destruct (t_crt t) as [[]|]; cbn; destruct (t_raises t); cbn; auto.
+  - intros Hk He. rewrite Hk, He in *.
+    destruct (t_on_done_ran t).
+    + specialize (Q eq_refl eq_refl).
+      destruct (t_crt t) as [[]|]; cbn in *; try discriminate; destruct (t_raises t); cbn; auto.
+    + cbn. auto.
   - intros [Hk|He].
     + destruct (t_kind t); try congruence;
         destruct (t_exc t), (t_on_done_ran t), (t_raises t); cbn; auto.
@@ -762,8 +849,10 @@ Proof.
     destruct (t_crt t) as [[]|] eqn:Ec; try discriminate.
     + rewrite (IH E). apply orb_true_r.
     + rewrite (IH E). apply orb_true_r.
-    + pose proof (wf_after t Ht) as A. pose proof (wf_ran t Ht) as Q.
-      rewrite Ee, Ec in Q. cbn in Q. rewrite Q in A. cbn in A. rewrite A. reflexivity.
+    + pose proof (wf_after t Ht) as A.
+      destruct (t_on_done_ran t) eqn:Er.
+      * pose proof (wf_ran2 t Ht Er Ee) as Q. rewrite Ec in Q. discriminate.
+      * cbn in A. rewrite A. reflexivity.
   - cbn [orb]. now apply IH.
 Qed.
 
@@ -805,10 +894,9 @@ Proof.
     apply andb_prop in A. destruct A as [A1 A2].
     split; [exact A1|]. split; [rewrite (wf_subs t Hw), A1; reflexivity|].
     split; [rewrite (wf_rel t Hw), Ha; reflexivity|].
-    rewrite (wf_temp t Hw). unfold expected_temp.
-    pose proof (wf_ran t Hw) as Q. rewrite A1 in Q.
+    rewrite (wf_temp t Hw). unfold expected_temp. rewrite A1.
     destruct (t_kind t); try discriminate. destruct (t_exc t); [discriminate|].
-    cbn in Q. destruct (t_crt t) as [[]|]; discriminate.
+    destruct (t_crt t) as [[]|]; discriminate.
 Qed.
 
 (** * Blocking at zero permits *)
@@ -823,12 +911,12 @@ Lemma submit_result : forall s k n r f s' res, submit k n r f s = (s', res) ->
   (res = RWouldBlock /\ s' = s /\ permits s <= 0) \/
   (res = RSubmitted /\ 0 < permits s /\
      length (transfers s') = S (length (transfers s))) \/
-  (res = RRaised /\ 0 < permits s /\ f = true /\ norm_raises n r = true).
+  (res = RRaised /\ 0 < permits s /\ is_fail f = true /\ norm_raises n r = true).
 Proof.
   intros s k n r f s' res H. unfold submit in H.
   destruct (permits s <=? 0) eqn:Ep.
   - apply Z.leb_le in Ep. injection H as <- <-. auto.
-  - apply Z.leb_gt in Ep. destruct f.
+  - apply Z.leb_gt in Ep. destruct (is_fail f) eqn:Ef.
     + rewrite run_on_done_eq in H by (cbn; apply norm_raises_nsubs).
       cbn [t_raises set_exc new_transfer] in H.
       destruct (norm_raises n r) eqn:Er; injection H as <- <-.
@@ -839,22 +927,22 @@ Proof.
 Qed.
 
 Lemma submit_ok_permits : forall s k n r, 0 < permits s ->
-  permits (fst (submit k n r false s)) = permits s - 1.
+  permits (fst (submit k n r NoFail s)) = permits s - 1.
 Proof.
-  intros s k n r H. unfold submit. apply Z.leb_gt in H. rewrite H. cbn [fst permits].
-  cbn [sem_delta sem_delta1]. rewrite sem_delta_queued. lia.
+  intros s k n r H. unfold submit. apply Z.leb_gt in H. rewrite H. cbn [is_fail fst permits].
+  cbn [sem_delta sem_delta1]. rewrite sem_delta_queued_part. lia.
 Qed.
 
 Lemma fill_permits : forall k n r m s, Z.of_nat m <= permits s ->
-  permits (run s (repeat (OSubmit k n r false) m)) = permits s - Z.of_nat m.
+  permits (run s (repeat (OSubmit k n r NoFail) m)) = permits s - Z.of_nat m.
 Proof.
   intros k n r m. induction m as [|m IH]; intros s H; [cbn; lia|].
-  cbn [repeat]. unfold run. cbn [fold_left step]. fold (run (fst (submit k n r false s)) (repeat (OSubmit k n r false) m)).
+  cbn [repeat]. unfold run. cbn [fold_left step]. fold (run (fst (submit k n r NoFail s)) (repeat (OSubmit k n r NoFail) m)).
   rewrite IH; rewrite submit_ok_permits; lia.
 Qed.
 
 Lemma fill_then_blocks : forall N k n r, 0 <= N ->
-  let s := run (init N) (repeat (OSubmit k n r false) (Z.to_nat N)) in
+  let s := run (init N) (repeat (OSubmit k n r NoFail) (Z.to_nat N)) in
   permits s = 0 /\ Z.of_nat (holding (transfers s)) = N /\
   forall k' n' r' f', submit k' n' r' f' s = (s, RWouldBlock).
 Proof.
@@ -864,4 +952,24 @@ Proof.
   assert (HI : Inv N s) by (apply inv_run; now apply inv_init).
   destruct (inv_conservation N s HI) as [C _].
   split; [exact Hp|]. split; [lia|]. intros. apply submit_blocks. lia.
+Qed.
+
+(** A construction failure at any of the three points, with well-behaved
+    subscribers: a future is returned, the permit taken is back at once. *)
+Lemma submit_failed_releases : forall s k n r f, 0 < permits s ->
+  is_fail f = true -> norm_raises n r = false ->
+  exists s', submit k n r f s = (s', RSubmitted) /\ permits s' = permits s /\
+    exists t, nth_error (transfers s') (length (transfers s)) = Some t /\
+      t_exc t = true /\ t_releases t = 1%nat /\ t_after t = true /\
+      t_subs_done t = n /\ future_of t = FvConstructFail.
+Proof.
+  intros s k n r f Hp Hf Hr. unfold submit. apply Z.leb_gt in Hp. rewrite Hp, Hf.
+  rewrite run_on_done_eq by (cbn; apply norm_raises_nsubs).
+  cbn [t_raises set_exc new_transfer]. rewrite Hr.
+  eexists. split; [reflexivity|]. cbn [permits transfers]. split.
+  - rewrite sem_delta_app, sem_delta_done_evs. cbn [sem_delta sem_delta1].
+    rewrite sem_delta_queued_part. cbn. rewrite Hr. lia.
+  - eexists. split.
+    + rewrite nth_error_app2 by lia. rewrite Nat.sub_diag. reflexivity.
+    + unfold future_of. cbn. rewrite Hr. repeat split.
 Qed.
